@@ -2,6 +2,16 @@
 
 pub use nd::obs::*;
 
+/// A value built by "foreign" code as the C-declared view of a library type, handed to the library as that type.
+/// (Not `mem::transmute`: a size change of the library type must be a failing check of the harness, not a build
+/// failure of the whole harness crate.)
+pub unsafe fn from_view<V, T>(view: V) -> T {
+    assert!(core::mem::size_of::<V>() == core::mem::size_of::<T>(), "a C-declared view and the library type have the same size");
+    let t = core::mem::transmute_copy::<V, T>(&view);
+    core::mem::forget(view);
+    t
+}
+
 /// Independent prefix-to-first-NUL scan (reference model for C14).
 pub fn nul_prefix_len(b: &[u8]) -> usize {
     let mut n = 0;
